@@ -3,3 +3,10 @@ from tables import fp
 
 # C07
 fp("dask/core.py", "_toposort", "toposort", "getcycle", "isdag", "reverse_dict")
+
+# C08
+fp("dask/_task_spec.py", "convert_legacy_task", "convert_legacy_graph", "Task.__call__", "Task.__init__", "Alias.__call__",
+   "DataNode.__call__", "NestedContainer.__init__", "NestedContainer.to_container", "Dict.constructor", "Dict.__init__",
+   "Task.__getstate__", "Task.__setstate__", "NestedContainer.__getstate__", "NestedContainer.__setstate__",
+   "execute_graph", "_identity_cast", "GraphNode._verify_values")
+fp("dask/core.py", "get", "keys_in_tasks", "get_dependencies")
